@@ -28,8 +28,9 @@ def listing(ctx, case):
     try:
         if rec_sel is not None:
             w.ctl.connection_command(w.conns[rec_sel].name())
-        for ci in assign:
-            ctl.add_message(w, ci)
+        for k, ci in enumerate(assign):
+            # every other message of longer histories is on an object the connection could not resolve
+            ctl.add_message(w, ci, target_id=99 if (len(assign) >= 3 and k % 2 == 1) else 1)
         if rec_sel is not None and sel is None:
             w.ctl.connection_command('all')
         F = ctl.SymLeaf(ctx, 'filter')
@@ -47,7 +48,7 @@ def listing(ctx, case):
             cap = None if cap == 'absent' else ctx.fresh_int('cap', 0, len(assign) + 3)
             call = lambda: w.ctl.show_messages(w.ctl.current_connection, L, cap)
         else:
-            form = ctx.choose(['', 'X', 'X ~ 0', 'X ~ 1', 'X ~ 2', 'X~3', '~ 1', '~2', 'X ~ 9'], 'text')
+            form = ctx.choose(['', 'X', 'X ~ 0', 'X ~ 1', 'X ~ 2', 'X~3', '~ 1', '~2', 'X ~ 9', 'X ~ 10', 'X ~ 12', '~ 21', 'X ~ 03'], 'text')
             saved_parse = matcher.parse
             texts = []
             def fake_parse(text):
@@ -113,6 +114,29 @@ def listing(ctx, case):
             if tail and scope:
                 mm = re.search(r'None of the (\d+) messages', tail[0])
                 ctx.check('summary counts every recorded message of the scope as not matching', mm is not None and int(mm.group(1)) == len(scope))
+        if via == 'show' and len(assign) >= 2:
+            # the same query again right after switching the selection (no new message in between) answers for the NEW scope
+            sel2 = ctx.choose([x for x in (None, 0, 1) if x != sel], 'switch_to')
+            w.ctl.connection_command('all' if sel2 is None else w.conns[sel2].name())
+            k0 = len(w.out.items)
+            w.ctl.show_messages(w.ctl.current_connection, L, cap)
+            shown2 = ctl.msg_lines(w.out.items[k0:])
+            scope2 = [m for (m, ci) in w.msgs if sel2 is None or ci == sel2]
+            vs2 = [L.verdict(m) for m in scope2]
+            for i, m in enumerate(scope2):
+                later = vs2[i + 1:]
+                real = m.tag in shown2
+                if ctx.symbolic:
+                    cnt = z.Sum([z.If(symx._b(v), 1, 0) for v in later]) if later else z.IntVal(0)
+                    capok = z.BoolVal(True) if cap is None else (z.BoolVal(True) if isinstance(cap, int) and cap == 0 else (cnt < cap if isinstance(cap, int) else z.Or(cap.e == 0, cnt < cap.e)))
+                    exp = z.And(symx._b(vs2[i]), capok)
+                    ctx.check('after switching the selection: message %d shown iff it matches within the new scope' % m.tag, exp if real else z.Not(exp))
+                else:
+                    cnt = sum(1 for v in later if v)
+                    capok = cap is None or cap == 0 or cnt < cap
+                    ctx.check('after switching the selection: message %d shown iff it matches within the new scope' % m.tag, real == (bool(vs2[i]) and capok))
+            ctx.check('after switching the selection: nothing outside the new scope is shown', all(t in [m.tag for m in scope2] for t in shown2))
+            w.ctl.connection_command('all' if sel is None else w.conns[sel].name())
         after = (w.ctl.display_matcher, w.ctl.stop_matcher, w.ctl.current_connection, list(w.ctl.all_messages),
                  [c.messages() for c in w.conns], w.ctl.last_shown_timestamp)
         ctx.check('filter untouched', after[0] is before[0])
@@ -165,7 +189,7 @@ def obligations(tier):
         for rec_sel in (0, 1):
             for sel in (None, 0, 1):
                 cases.append(('show', assign, sel, rec_sel))
-    list_cases = [('list', a, s) for a in [(), (0, 1, 0), (0, 0, 1, 1)] for s in (None, 0)] + [('list', (0, 1, 0), None, 1)]
+    list_cases = [('list', a, s) for a in [(), (0, 1, 0), (0, 0, 1, 1), (0, 0, 0, 0, 0)] for s in (None, 0)] + [('list', (0, 1, 0), None, 1)]
     bounds = '<= %d recorded messages on 2 connections (all assignments up to renaming), selection none/A/B, verdict vector symbolic, cap absent or any integer in [0, %d)' % (n, n + 3)
     return [
         Ob('show-messages', 'symx', 'show_messages/_get_matching: shown set, order, cap, counts, idempotence, no state change', FUNCS, bounds, listing, cases=cases,
